@@ -2,9 +2,9 @@
 C16 — Untrusted input never brings the daemon down.  *Partial by nature.*
 
 What is proved: krill's **own** value-level arithmetic, shifting and slicing on
-client-controlled values (`Input/Checked.lean`, `none` = panic) is total on every value
-that passed krill's validation – with one exception that is stated precisely – and the
-request pipelines (`Input/Pipeline.lean`) answer every request.
+client-controlled values (`Input/Checked.lean`, `none` = panic) is total – the one exception
+the pinned tree had (`::/0-128`, F-C16-1) is repaired by da59be0d and kept as a labelled
+counter-model – and the request pipelines (`Input/Pipeline.lean`) answer every request.
 
 What is *not* proved and cannot be at reasonable cost: panic-freedom of the byte-level
 decoders of third-party crates (rpki-rs, bcder, serde/serde_json, quick-xml).  They enter
@@ -20,21 +20,21 @@ open KM.Bgp KM.Ca KM.Input
 
 /-! ## `nr_of_specific_prefixes` -/
 
-/-- **The arithmetic of `nr_of_specific_prefixes` on a validated payload.**  For every
-payload whose prefix length fits its family and that passes `max_length_valid`, the
-computation `1u128 << (max_len - pfx_len)` overflows in exactly one case: the IPv6 prefix
-of length 0 with max length 128 (`::/0-128`, finding F-C16-1); otherwise the result is the
-number of prefixes `2^(max_len - pfx_len)`. -/
-theorem validated_arith_total (r : Roa) (hlen : r.pfx.len ≤ r.pfx.fam.bits)
+/-- **The arithmetic of `nr_of_specific_prefixes` is total** (after fix da59be0d): for
+*every* payload – validated or not – the computation answers. -/
+theorem validated_arith_total (r : Roa) : nrOfSpecificPrefixes r ≠ none := by
+  unfold nrOfSpecificPrefixes; simp
+
+/-- … and on a payload whose prefix length fits its family and that passes
+`max_length_valid` the answer is the number of prefixes `2^(max_len - pfx_len)`, except for
+the one payload for which that number does not fit 128 bits, `::/0-128`, where it is
+`u128::MAX`. -/
+theorem nr_of_specific_prefixes_value (r : Roa) (hlen : r.pfx.len ≤ r.pfx.fam.bits)
     (hv : maxLengthValid r = true) :
-    (nrOfSpecificPrefixes r = none ↔ (r.pfx.fam = .v6 ∧ r.pfx.len = 0 ∧ r.maxLen = some 128)) ∧
-    (∀ n, nrOfSpecificPrefixes r = some n → n = 2 ^ (r.effMax - r.pfx.len)) := by
+    nrOfSpecificPrefixes r =
+      some (if r.pfx.fam = .v6 ∧ r.pfx.len = 0 ∧ r.maxLen = some 128 then 2 ^ 128 - 1
+            else 2 ^ (r.effMax - r.pfx.len)) := by
   have hvm := (maxLengthValid_iff r).mp hv
-  have hge : r.pfx.len ≤ r.effMax := by
-    unfold Roa.effMax
-    cases hm : r.maxLen with
-    | none => simp
-    | some m => simpa using (hvm m hm).1
   have hle : r.effMax ≤ r.pfx.fam.bits := by
     unfold Roa.effMax
     cases hm : r.maxLen with
@@ -42,15 +42,19 @@ theorem validated_arith_total (r : Roa) (hlen : r.pfx.len ≤ r.pfx.fam.bits)
     | some m => simpa using (hvm m hm).2
   have hb := family_bits_le r.pfx.fam
   unfold nrOfSpecificPrefixes
-  rw [checkedSub_eq_some hge]
-  simp only [Option.bind_eq_bind, Option.bind_some]
-  constructor
-  · rw [checkedShl_eq_none]
-    constructor
-    · intro h
+  congr 1
+  by_cases hc : r.pfx.fam = .v6 ∧ r.pfx.len = 0 ∧ r.maxLen = some 128
+  · have hd : r.effMax - r.pfx.len = 128 := by
+      unfold Roa.effMax; rw [hc.2.2, hc.2.1]; rfl
+    rw [if_pos hc, hd]; rfl
+  · simp only [hc, if_false]
+    have hlt : r.effMax - r.pfx.len < 128 := by
+      apply Classical.byContradiction
+      intro hge
       have h128 : r.effMax = 128 := by omega
       have h0 : r.pfx.len = 0 := by omega
       have hbits : r.pfx.fam.bits = 128 := by omega
+      apply hc
       refine ⟨?_, h0, ?_⟩
       · cases hf : r.pfx.fam with
         | v4 => rw [hf] at hbits; cases hbits
@@ -59,27 +63,18 @@ theorem validated_arith_total (r : Roa) (hlen : r.pfx.len ≤ r.pfx.fam.bits)
         cases hm : r.maxLen with
         | none => rw [hm] at h128; simp at h128; omega
         | some m => rw [hm] at h128; simp at h128; rw [h128]
-    · rintro ⟨_, h0, hm⟩
-      unfold Roa.effMax; rw [hm, h0]; simp
-  · intro n hn
-    unfold checkedShl at hn
-    split at hn
-    · rename_i hlt
-      simp only [Option.some.injEq, Nat.one_mul] at hn
-      rw [← hn]
-      exact Nat.mod_eq_of_lt (Nat.pow_lt_pow_right (by decide) hlt)
-    · cases hn
+    unfold checkedShl
+    simp only [hlt, if_true, Option.getD_some, Nat.one_mul]
+    exact Nat.mod_eq_of_lt (Nat.pow_lt_pow_right (by decide) hlt)
 
-/-- Validation is what protects the arithmetic: on an unvalidated payload (max length
-below the prefix length) the `u8` subtraction already overflows. -/
-theorem unvalidated_arith_partial :
-    ∃ r : Roa, r.pfx.WF ∧ maxLengthValid r = false ∧ nrOfSpecificPrefixes r = none :=
-  ⟨⟨64496, ⟨.v4, 167772160, 8⟩, some 7⟩, by decide, by decide, by decide⟩
-
-/-- The exception is real: `::/0-128` passes `max_length_valid`. -/
-theorem nr_of_specific_prefixes_overflow :
-    ∃ r : Roa, r.pfx.WF ∧ maxLengthValid r = true ∧ nrOfSpecificPrefixes r = none :=
-  ⟨⟨64496, ⟨.v6, 0, 0⟩, some 128⟩, by decide, by decide, by decide⟩
+/-- COUNTER-MODEL WITNESS – what the pinned tree did (finding F-C16-1, fixed by da59be0d):
+`1u128 << (max_len - pfx_len)` overflowed for the validated payload `::/0-128`, and the
+`u8` subtraction overflowed on unvalidated payloads. -/
+theorem pinned_nr_of_specific_prefixes_overflow :
+    (∃ r : Roa, r.pfx.WF ∧ maxLengthValid r = true ∧ nrOfSpecificPrefixesPinned r = none) ∧
+    (∃ r : Roa, r.pfx.WF ∧ maxLengthValid r = false ∧ nrOfSpecificPrefixesPinned r = none) :=
+  ⟨⟨⟨64496, ⟨.v6, 0, 0⟩, some 128⟩, by decide, by decide, by decide⟩,
+   ⟨⟨64496, ⟨.v4, 167772160, 8⟩, some 7⟩, by decide, by decide, by decide⟩⟩
 
 /-! ## Masks, host-bit tests, slicing -/
 
@@ -141,23 +136,16 @@ theorem roa_aggregate_key_total (s : List Char) : roaAggregateKeyFromStr s ≠ n
         · split <;> simp
         · simp
 
-/-- `authorizes_excess` evaluates the count only when there is an announcement at the
-maximum length. -/
-theorem authorizes_excess_total (r : Roa) (n : Nat) :
-    authorizesExcess r n = none ↔ (0 < n ∧ nrOfSpecificPrefixes r = none) := by
-  unfold authorizesExcess
-  by_cases h : n > 0
-  · simp only [h, if_true, true_and]
-    cases nrOfSpecificPrefixes r <;> simp
-  · simp [h]
+/-- `authorizes_excess` always answers. -/
+theorem authorizes_excess_total (r : Roa) (n : Nat) : authorizesExcess r n ≠ none := by
+  unfold authorizesExcess nrOfSpecificPrefixes
+  by_cases h : n > 0 <;> simp [h]
 
 /-! ## The analyser -/
 
-/-- **The analysis is total unless a held ROA is `::/0-128`**: if `nr_of_specific_prefixes`
-is defined for every held ROA (by `validated_arith_total`: every validated ROA other than
-`::/0-128`), `analyse` answers. -/
-theorem analyse_total (i : AnalyseInput)
-    (h : ∀ rc ∈ i.roasHeld, nrOfSpecificPrefixes rc.payload ≠ none) : analyse i ≠ none := by
+/-- **The analysis is total**: `BgpAnalyser::analyse` answers for every list of ROAs, every
+resource set, scope and announcement data. -/
+theorem analyse_total (i : AnalyseInput) : analyse i ≠ none := by
   unfold analyse
   simp only
   cases hs : i.seen with
@@ -167,33 +155,18 @@ theorem analyse_total (i : AnalyseInput)
     have : allSome (i.roasHeld.map (fun r => categoriseRoa r i.validated i.roasHeld)) ≠ none := by
       apply allSome_ne_none
       intro x hx
-      obtain ⟨rc, hrc, rfl⟩ := List.mem_map.mp hx
+      obtain ⟨rc, _, rfl⟩ := List.mem_map.mp hx
       unfold categoriseRoa
       simp only
-      have hne : authorizesExcess rc.payload
+      have hne := authorizes_excess_total rc.payload
           ((authorizesOf rc.payload i.validated).filter
-            (fun a => a.pfx.len == rc.payload.effMax)).length ≠ none := by
-        intro hc
-        exact h rc hrc ((authorizes_excess_total _ _).mp hc).2
+            (fun a => a.pfx.len == rc.payload.effMax)).length
       split
       · rename_i hx'; exact absurd hx' hne
       · simp
     cases hr : allSome (i.roasHeld.map (fun r => categoriseRoa r i.validated i.roasHeld)) with
     | none => exact absurd hr this
     | some es => simp
-
-/-- … and for `::/0-128` it does fail as soon as an announcement of length 128 with the
-ROA's origin is seen (F-C16-1 through `BgpAnalyser::analyse`). -/
-theorem analyse_overflow :
-    ∃ i : AnalyseInput, (∀ rc ∈ i.roasHeld, maxLengthValid rc.payload = true ∧ rc.payload.pfx.WF) ∧
-      analyse i = none := by
-  refine ⟨{ roas := [⟨⟨64496, ⟨.v6, 0, 0⟩, some 128⟩, none⟩], held := fun _ => true, limit := none,
-            scope := [⟨.v6, 0, 0⟩], seen := some [⟨64496, ⟨.v6, 1, 128⟩⟩] }, ?_, by decide⟩
-  intro rc hrc
-  have : rc = ⟨⟨64496, ⟨.v6, 0, 0⟩, some 128⟩, none⟩ := by
-    simpa [AnalyseInput.roasHeld, AnalyseInput.inLimit] using hrc
-  subst this
-  exact ⟨by decide, by decide⟩
 
 /-! ## The request pipelines -/
 
@@ -250,11 +223,9 @@ theorem pipeline_total {B : Type} :
       | ok v => exact ⟨_, _, rfl, fun h => absurd rfl h⟩
 
 /-- The dry-run request (decode, validate, *analyse the would-be configuration*) is answered
-unless the would-be configuration holds a ROA whose count overflows – by
-`validated_arith_total` and the validation in `process_updates` that is `::/0-128` only. -/
+as well. -/
 theorem dry_run_total {B : Type} (decode : B → Option RoaUpdates) (r : Routes) (held : Roa → Bool)
-    (mkInput : Routes → AnalyseInput) (body : B)
-    (h : ∀ r', ∀ rc ∈ (mkInput r').roasHeld, nrOfSpecificPrefixes rc.payload ≠ none) :
+    (mkInput : Routes → AnalyseInput) (body : B) :
     roaDryRunRequest decode r held mkInput body ≠ none := by
   unfold roaDryRunRequest
   cases decode body with
@@ -265,7 +236,7 @@ theorem dry_run_total {B : Type} (decode : B → Option RoaUpdates) (r : Routes)
     | error e => simp
     | ok v =>
       simp only
-      have := analyse_total (mkInput v.1) (h v.1)
+      have := analyse_total (mkInput v.1)
       cases ha : analyse (mkInput v.1) with
       | none => exact absurd ha this
       | some es => simp
@@ -275,6 +246,8 @@ theorem dry_run_total {B : Type} (decode : B → Option RoaUpdates) (r : Routes)
 example : ∃ r : Roa, r.pfx.len ≤ r.pfx.fam.bits ∧ maxLengthValid r = true ∧
     nrOfSpecificPrefixes r = some (2 ^ 16) :=
   ⟨⟨64496, ⟨.v4, 167772160, 8⟩, some 24⟩, by decide, by decide, by decide⟩
+
+example : nrOfSpecificPrefixes ⟨64496, ⟨.v6, 0, 0⟩, some 128⟩ = some (2 ^ 128 - 1) := by decide
 
 example : roaAggregateKeyFromStr "AS64496-2".toList = some (some (64496, some 2)) := by decide
 
